@@ -151,7 +151,7 @@ Proof. unfold running; intros ns ns' j q e E H; rewrite E in H; auto. Qed.
 (* ---------------------------------------------------------------- per-label preservation (node-local) *)
 
 Ltac dinv H := destruct H as [hP1 hP2 hP3 hP4 hTD hTL hXf hXd hEF hII].
-Ltac unf := unfold flag, live, tfacts, noflag, efacts in *; simpl in *.
+Ltac unf := unfold efacts, tfacts, noflag, flag, live in *; simpl in *.
 
 Lemma start_ninv : forall n r ns,
   ninv n r ns -> flight ns = None -> quiet_d ns = true ->
